@@ -35,7 +35,8 @@ pub trait Variant: Send + Sync + 'static {
         + Send
         + Sync
         + FromStr<Err = ParseError>;
-    type Gen: GeneratorType<Output = Self::Hash> + Clone + Debug + Send + Sync;
+    /// (not required to be `Sync`: a change that adds interior mutability must still be checkable)
+    type Gen: GeneratorType<Output = Self::Hash> + Clone + Debug + Send;
 
     fn kind() -> Kind {
         Kind::from_nb(Self::NB)
